@@ -18,7 +18,7 @@ import (
 // ---- handler programs -------------------------------------------------------
 
 type act struct {
-	Op   string `json:"op"` // ev | write | header | next | cancel | panic
+	Op   string `json:"op"` // ev | write | header | next | cancel | panic | rectx (replace the request's context by a derived one; later cancels hit that one)
 	Code int    `json:"code,omitempty"`
 }
 
@@ -63,8 +63,10 @@ func genHspec(r *rand.Rand) hspec {
 			h.Acts = append(h.Acts, act{Op: "header", Code: []int{201, 204, 404, 500, 302}[r.Intn(5)]})
 		case x < 35:
 			h.Acts = append(h.Acts, act{Op: "next"})
-		case x < 38:
+		case x < 37:
 			h.Acts = append(h.Acts, act{Op: "cancel"})
+		case x < 38:
+			h.Acts = append(h.Acts, act{Op: "rectx"})
 		default:
 			h.Acts = append(h.Acts, act{Op: "panic"})
 		}
@@ -192,6 +194,8 @@ func (s *chainSim) exec(i int, h *hspec) {
 			case "cancel":
 				s.cancelled = true
 				s.tr = append(s.tr, fmt.Sprintf("cancel%d.%d", i, k))
+			case "rectx":
+				s.tr = append(s.tr, fmt.Sprintf("rectx%d.%d", i, k))
 			case "panic":
 				panic(chainSentinel{"program"})
 			}
@@ -271,6 +275,12 @@ func (x *chainExec) mk(i int, h *hspec) flamego.Handler {
 			case "cancel":
 				x.cancel()
 				x.tr = append(x.tr, fmt.Sprintf("cancel%d.%d", i, k))
+			case "rectx":
+				// the usual deadline-middleware pattern: the request now carries a derived context
+				ctx2, cancel2 := gocontext.WithCancel(c.Request().Context())
+				c.Request().Request = c.Request().WithContext(ctx2)
+				x.cancel = cancel2
+				x.tr = append(x.tr, fmt.Sprintf("rectx%d.%d", i, k))
 			case "panic":
 				panic(chainSentinel{"program"})
 			}
@@ -507,9 +517,16 @@ func judgeChain(w *core.W, c *chainCase) {
 	if maxNext >= 2 {
 		w.Count("next-twice-in-one-handler")
 	}
+	sawRectx := false
 	for _, e := range x.tr {
+		if strings.HasPrefix(e, "rectx") {
+			sawRectx = true
+		}
 		if strings.HasPrefix(e, "cancel") {
 			w.Count("cancel-executed")
+			if sawRectx {
+				w.Count("cancel-of-replaced-request-context")
+			}
 			break
 		}
 	}
@@ -534,7 +551,7 @@ func runC03(r *core.Run) {
 		judgeChain(w, c)
 	})
 	r.Gate("distinct_nontrivial", r.NonTrivialCount(), 2000)
-	for _, k := range []string{"nil-action-reached", "not-found-chain", "panic-unwound", "next-twice-in-one-handler", "cancel-executed"} {
+	for _, k := range []string{"nil-action-reached", "not-found-chain", "panic-unwound", "next-twice-in-one-handler", "cancel-executed", "cancel-of-replaced-request-context"} {
 		r.GateCounter(k, 50)
 	}
 }
